@@ -17,7 +17,7 @@ func init() { register("C31", "exploration", runC31) }
 const c31Max = uint64(18446744073709551615/1000000 - 1)
 
 func runC31(c *ev.Ctx) {
-	c.Rule = "random dot lists (2..6 dots; coordinates from {0..9, range maximum-0..9, small, uniform, neighbours x+1}) and per function 12 inputs x (each dot, dot+-1, segment interior, 0, MaxUint64); oracle in big rationals for every clause: before first / after last / exact at dots / between min-1 and max of the neighbouring Ys / |f(x)-exact| <= |dY|/10^6 + 2; " +
+	c.Rule = "random dot lists (2..6 dots, every 16th list 7..256 dots with the end pieces always probed; coordinates from {0..9, range maximum-0..9, small, uniform, neighbours x+1}) and per function 12 inputs x (each dot, dot+-1, segment interior, 0, MaxUint64); oracle in big rationals for every clause: before first / after last / exact at dots / between min-1 and max of the neighbouring Ys / |f(x)-exact| <= |dY|/10^6 + 2; " +
 		"invalid lists (fewer than two dots, non-increasing X, X or Y above the supported range) must panic. non-trivial = distinct (function, x) with x strictly inside a segment whose Ys differ"
 	c.Assumptions = []string{"supported coordinate range is [0, MaxUint64/10^6 - 1] as documented by the constructor's checks"}
 	n := c.Pick(60000, 3000000)
@@ -40,6 +40,9 @@ func c31pick(r *rand.Rand) uint64 {
 
 func c31Case(c *ev.Ctx, r *rand.Rand, caseN int) {
 	n := 2 + r.Intn(5)
+	if caseN%16 == 0 {
+		n = 7 + r.Intn(250) // long tables (an implementation may switch its search method with the length)
+	}
 	xs := map[uint64]bool{}
 	for len(xs) < n {
 		x := c31pick(r)
@@ -89,6 +92,9 @@ func c31Case(c *ev.Ctx, r *rand.Rand, caseN int) {
 	}
 	for q := 0; q < 12; q++ {
 		i := r.Intn(n - 1)
+		if n > 7 && q < 4 {
+			i = []int{0, n - 2, 1, n - 3}[q] // the pieces at both ends of a long table
+		}
 		d0, d1 := dots[i], dots[i+1]
 		var x uint64
 		switch r.Intn(6) {
